@@ -112,6 +112,9 @@ def token_pool(decl):
             add(cls, b"-" + b"".join(c[0] for c in combo))
     for (l, kd) in letters[:2]:
         add("bundle-eq", b"-" + l + l + b"=x")
+    for combo in itertools.product(letters, repeat=2):
+        kinds = "".join(sorted(set(c[1] for c in combo)))
+        add("bundle-eq-" + kinds, b"-" + b"".join(c[0] for c in combo) + b"=val")
     add("value", b"x")
     add("value", b"file.txt")
     add("value-empty", b"")
